@@ -220,6 +220,11 @@ def probe_replay(path, no_skip=True):
 
 KANI_QUICK = ['echo_constant_bits', 'gte_bits', 'lte_bits', 'multiply_divide_gating', 'add_bits', 'subtract_bits']
 KANI_THOROUGH = KANI_QUICK + ['multiply_bits']
+# bounded checks (<= 3 elements, every ring-buffer layout, all finite f64 values) of the std contracts the Verus shim ASSUMES (R2 min_by/max_by,
+# R6 last().copied(), R1/R10 iteration order, M4 clone of scalar buffers, VecDeque::{front, back, get, is_empty, index}); thorough tier of the
+# properties whose proofs lean on them.  Bounded stand-ins for trusted contracts, never counted as proof; a failure is a wrong assumption (exit 2)
+KANI_STD = ['std_min_max_by', 'std_deque_access', 'std_clone_last']
+KANI_STD_PROPS = ('C02', 'C15', 'C17')
 def kani_run(harnesses, timeout=1800):
     """complete loop-free bit-level proofs on the real crate (C14); returns dict(harness -> 'SUCCESSFUL'|'FAILED'|'ERROR')"""
     kdir = os.environ.get('VERIF_KANI_DIR', os.path.join(ROOT, 'kani'))
@@ -449,9 +454,24 @@ def main():
     if focus and not probe.get('found'):
         p2 = probe_search(pid, seed + 1, max(budget * 5, 150000), focus, skip)      # only reached when an obligation already failed: worth the seconds
         if p2.get('found'): probe = p2
+    # translation validation of the extraction (vf/mkexec.py): the generated text, compiled by Verus with an executable scalar model, must agree
+    # bit for bit with the real crate on the replayed cases; bounded, never counted as proof; a disagreement is a defect of the extraction (exit 2)
+    tv = None
+    if not os.environ.get('VERIF_NO_TV'):
+        import mkexec
+        binp, _ = probe_build()
+        if binp:
+            try: tv = mkexec.validate(gen, rep['modules'], binp, os.path.join(gdir, 'exec'), seed, per_kind=(12 if tier == 'quick' else 60))
+            except Exception as e: tv = dict(ok=False, error='translation validation did not run: %s' % str(e)[:300])
     kani = None
     if pid == 'C14':
         kani = kani_run(KANI_QUICK if tier == 'quick' else KANI_THOROUGH)
+    kani_std = None
+    if pid in KANI_STD_PROPS and tier == 'thorough':
+        kani_std = kani_run(KANI_STD)
+        kani_std['bound'] = 'sequences of at most 3 elements in every ring-buffer layout (head rotated by 0..2), element values: all finite f64'
+        if not kani_std.get('summary') or kani_std['summary']['failed'] > 0:
+            print('MACHINERY: a std contract assumed by the Verus shim fails its bounded Kani check (a wrong assumption, not a verdict on the property):\n' + json.dumps(kani_std)[-1200:]); sys.exit(2)
     violation = None
     # a function that has no contract of its own (e.g. a helper extracted by a refactoring) makes its callers unverifiable: failures in
     # such a module are "needs contract work" (undecided) unless the bounded search replays a real failing input
@@ -486,7 +506,7 @@ def main():
                   prerequisite_failures=[dict(module=f['module'], fn=f['fn'], label=f['label'], tags=f['tags']) for f in prereq],
                   undecided_resource_out=[dict(module=f['module'], fn=f['fn']) for f in undecided],
                   known_findings=[k['raw'][:300] for k in known],
-                  bounded=probe, kani_loop_free_bit_level_proofs=kani, seeded_self_test=st,
+                  bounded=probe, extraction_translation_validation=tv, kani_loop_free_bit_level_proofs=kani, assumed_std_contracts_bounded_check=kani_std, seeded_self_test=st,
                   extraction=dict(functions=len(rep['functions']), verbatim=len([f for f in rep['functions'] if not f['rules']]),
                                   rewritten={'%s::%s' % (f['module'], f['fn']): f['rules'] for f in rep['functions'] if f['rules']}),
                   slowest_functions=sorted([(v['ms'], k) for k, v in fnres.items()], reverse=True)[:8],
@@ -506,6 +526,8 @@ def main():
         if found: print('FAILING-INPUT: %s' % json.dumps(probe.get('case'))[:600])
         print('VIOLATION property=%s replay=%s%s' % (pid, rp, '' if found else ' no-failing-input-found'))
         sys.exit(1)
+    if tv is not None and not tv.get('ok'):
+        print('MACHINERY: translation validation of the extraction failed - the extracted text does not behave like the real crate (a defect of the extraction rules, not a verdict on %s): %s' % (pid, json.dumps(tv)[:1500])); sys.exit(2)
     if pid == 'C17' and rep.get('clone_unverified') and not violation:
         print('MACHINERY: %s implement Clone by hand: the clone clause of C17 is outside the supported subset (M4 covers #[derive(Clone)] only) and the bounded search found no failing input: undecided' % sorted(rep['clone_unverified'])); sys.exit(2)
     if needs_contract and not violation:
